@@ -20,18 +20,28 @@ def _run_chunk(args):
     return [fn(x) for x in chunk]
 
 
-def _one(fn, item):
+_confirmed_hang = False
+
+
+def _one(fn, item, timeout=None):
+    """one case in its own process.  A first time-out is retried once with four times the budget (a loaded machine
+    must not look like non-termination); once a hang is confirmed, later time-outs are not retried."""
+    global _confirmed_hang
+    timeout = timeout or ITEM_TIMEOUT
     ctx = mp.get_context("fork")
     with ProcessPoolExecutor(1, mp_context=ctx) as ex:
         fut = ex.submit(fn, item)
         try:
-            return fut.result(timeout=ITEM_TIMEOUT)
+            return fut.result(timeout=timeout)
         except BrokenProcessPool:
             return {"error": "worker process died while running this case (crash in the implementation)", "miss": False}
         except TimeoutError:
             for p in list(ex._processes.values()):
                 p.kill()
-            return {"error": f"case did not finish within {ITEM_TIMEOUT}s (non-termination)", "miss": False}
+    if timeout == ITEM_TIMEOUT and not _confirmed_hang:
+        return _one(fn, item, timeout=4 * ITEM_TIMEOUT)
+    _confirmed_hang = True
+    return {"error": f"case did not finish within {timeout}s (non-termination)", "miss": False}
 
 
 def pmap(fn, items, procs: int | None = None, chunksize: int = 64):
